@@ -216,7 +216,33 @@ func runC26(c *Ctx) {
 		eofOK := len(eofToks) > 0
 		for _, t := range eofToks {
 			if t.Const == nil {
-				eofOK = false
+				// the word itself is a variable: 1 by default, 0 exactly on the edges that leave through the stop test
+				okVar := false
+				if phi, isPhi := unwrap(t.Val).(*ssa.Phi); isPhi && stopIf != nil {
+					okVar = true
+					zeros := 0
+					for i, e := range phi.Edges {
+						k, isC := constInt(unwrap(e))
+						if !isC || (k != 0 && k != 1) {
+							okVar = false
+							break
+						}
+						pred := phi.Block().Preds[i]
+						fromStop := pred == stopIf.Block().Succs[0] || stopIf.Block().Succs[0].Dominates(pred)
+						if (k == 0) != fromStop {
+							okVar = false
+						}
+						if k == 0 {
+							zeros++
+						}
+					}
+					if zeros == 0 {
+						okVar = false
+					}
+				}
+				if !okVar {
+					eofOK = false
+				}
 				continue
 			}
 			// block facts: a phi (reachedLimit) false for eof=1, true for eof=0
